@@ -16,5 +16,6 @@ for pid, cfg in chk.PROPS.items():
     if pid not in set(open("CLAIMED.txt").read().split()):
         continue
     out, s = chk.build(pid, cfg)
+    os.remove(out)  # the point is the warm build cache; every ./check run links its own binary
     print("built %s in %.1fs" % (pid, s))
 PY
